@@ -339,6 +339,9 @@ func runCuts(e *env, r *core.Rand, stride int) {
 					core.Begin(id, desc)
 					core.Add("evaluations", 1)
 					core.Add("cut_cases", 1)
+					if k == n/2 && !reset {
+						core.Sample(desc)
+					}
 					l, err := bed.Connect(e.cli, e.srv, e.p.Func, e.p.Func, func(ca, cb *memconn.Conn) {
 						if dir == "request" {
 							ca.CutWritesAfter(k, reset, nil)
@@ -443,6 +446,9 @@ func runScript(e *env, sc script, delaySeed int64) {
 	core.Begin(id, desc)
 	core.Add("evaluations", 1)
 	core.Add("gate_scripts", 1)
+	if sc.Action == "cutEOF" {
+		core.Sample(desc)
+	}
 	l, err := bed.Connect(e.cli, e.srv, e.p.Func, e.p.Func, nil)
 	if err != nil {
 		core.Result(core.R{ID: id, Verdict: core.Inconclusive, What: "connect: " + err.Error()})
@@ -594,6 +600,9 @@ func runHostile(e *env, kind, resKind string, idx int) {
 	core.Begin(id, desc)
 	core.Add("evaluations", 1)
 	core.Add("hostile_replies", 1)
+	if kind == "dup-one-write" {
+		core.Sample(desc)
+	}
 	// the victim is a client-role session of e.cli whose far end is the script
 	c := rawpeer.Dial(e.cli, p.Func, nil)
 	if c.Sess == nil {
@@ -732,6 +741,7 @@ func runChaos(e *env, idx int, r *core.Rand) {
 	core.Begin(id, desc)
 	core.Add("evaluations", 1)
 	core.Add("chaos_cases", 1)
+	core.Sample(desc)
 	l, err := bed.Connect(e.cli, e.srv, e.p.Func, e.p.Func, nil)
 	if err != nil {
 		core.Result(core.R{ID: id, Verdict: core.Inconclusive, What: "connect"})
